@@ -228,6 +228,28 @@ func ZZ_C16_shared() {
 	zzCheckListing(f, []string{"s1", "s3", "b1", "u2"}, 3, "shared:filled")
 	zzCheckListing(p2, []string{"s1", "s2", "s3", "b1", "u1", "u2"}, 3, "shared:second-parent-after-fill")
 	zzCheckListing(p3, []string{"u1", "u2", "s1", "s2", "s3"}, 2, "shared:third-parent-after-fill")
+	// a caller reordering the slice it was given does not change what the tree lists
+	vs := p2.Variables()
+	vs[0], vs[len(vs)-1] = vs[len(vs)-1], vs[0]
+	zzCheckListing(p2, []string{"s1", "s2", "s3", "b1", "u1", "u2"}, 3, "shared:listing-after-caller-reordered-its-copy")
+	zzCheckListing(NewListNode(p2, "z9"), []string{"s1", "s2", "s3", "b1", "u1", "u2", "z9"}, 2, "shared:new-parent-after-caller-reordered-its-copy")
+	rt.Reach("end")
+}
+
+// ZZ_C16_ascii: an ASCII item of k arbitrary bytes, when constructible, reports a size equal
+// to the number of characters it encodes and prints.
+func ZZ_C16_ascii() {
+	k := rt.Param("k")
+	s := rt.String("s", k)
+	var n ItemNode
+	if rt.Try(func() { n = NewASCIINode(s) }) {
+		rt.Reach("end")
+		return
+	}
+	b := n.ToBytes()
+	rt.Assert(len(b) == 2+n.Size(), "ascii:size-equals-encoded-characters")
+	rt.Assert(n.Size() == k, "ascii:size-equals-characters-given")
+	rt.Assert(len(n.Variables()) == 0, "ascii:no-variables")
 	rt.Reach("end")
 }
 
